@@ -73,7 +73,8 @@ type parentController struct {
 	parentInformer *dynamicinformer.ResourceInformer
 	parentSelector labels.Selector
 
-	revisionLister mclisters.ControllerRevisionLister
+	revisionLister  mclisters.ControllerRevisionLister
+	revisionsSynced cache.InformerSynced
 
 	stopCh, doneCh chan struct{}
 	queue          workqueue.TypedRateLimitingInterface[any]
@@ -100,6 +101,7 @@ func newParentController(
 	eventRecorder record.EventRecorder,
 	mcClient mcclientset.Interface,
 	revisionLister mclisters.ControllerRevisionLister,
+	revisionsSynced cache.InformerSynced,
 	cc *v1alpha1.CompositeController,
 	numWorkers int,
 	ssaOptions *common.ApplyOptions,
@@ -184,6 +186,8 @@ func newParentController(
 		parentResource: parentResource,
 		revisionLister: revisionLister,
 		updateStrategy: updateStrategy,
+		// rollout state is read from the ControllerRevision cache only
+		revisionsSynced: revisionsSynced,
 		queue: workqueue.NewTypedRateLimitingQueueWithConfig(
 			workqueue.DefaultTypedControllerRateLimiter[any](),
 			workqueue.TypedRateLimitingQueueConfig[any]{
@@ -277,6 +281,11 @@ func (pc *parentController) Start() {
 		syncFuncs = append(syncFuncs, pc.dynClient.HasSynced, pc.parentInformer.Informer().HasSynced)
 		for _, childInformer := range pc.childInformers {
 			syncFuncs = append(syncFuncs, childInformer.Informer().HasSynced)
+		}
+		if pc.revisionsSynced != nil {
+			// A sync that runs before the ControllerRevisions are listed sees no rollout in
+			// progress and would update every child at once.
+			syncFuncs = append(syncFuncs, pc.revisionsSynced)
 		}
 		if !cache.WaitForNamedCacheSync(pc.parentResource.Kind, pc.stopCh, syncFuncs...) {
 			// We wait forever unless Stop() is called, so this isn't an error.
